@@ -4,6 +4,7 @@ CONSTANTS FlawShallowListFreeze = FALSE
  FlawAppendSharesCapacity = FALSE
  FlawSortedAliasesOrdered = FALSE
  OnlyTargets = {}
+ DeepTargets = {"x", "L"}
  MaxMut = 2
  DeepVias = {"direct"}
  LastVias = {"alias"}
